@@ -25,10 +25,10 @@ func c07Compile(c *Ctx) {
 	if r.Histogram == nil {
 		r.Histogram = map[string]int{}
 	}
-	r.Rule += " || compile-time half: (a) generated calls (1-3 typed parameters, bindings built type-directed with near-misses and references into pipeline inputs / a producer call made singly, array-mapped or map-mapped): accept/reject of the real compiler vs the model's checkCall, error location, and for accepted reference-free literals real EncodeJSON+IsValidJson vs the model's eval/valid; (b) every single-point ill-typed mutation (by construction, double-checked by the model) of every single-line binding of accepted programs (GenProgram, repo *.mro, corpus) must be rejected with an error located at the binding or its call; targeted streams (every quick run, counts in the histogram as stream_*): depth = references between all 64 ordered pairs of nestings (T, T[], T[][], map<T>, map<T[]>, map<T[][]>, map<T>[], map<T[]>[]) of the same base type, bound plainly / via a call output / as array element / as map value / via split over arrays and typed maps / via struct members; splits = map calls with 2..4 split arguments in every order over {reference of unknown length, reference into a mapped call, literal of matching / other length, other key set, other kind}; untyped = references at depth 1..3 inside literals for untyped map parameters (map, map[], map[][], struct member, array of structs, map of structs); every call accepted by both is also invoked (top-level call with conforming inputs + MakePipelineCallGraph must succeed), and a call the model rejects but the compiler accepts is invoked too (failure = concrete property violation); non-trivial (a) = case has a reference, a composite literal or a split"
+	r.Rule += " || compile-time half: (a) generated calls (1-3 typed parameters, bindings built type-directed with near-misses and references into pipeline inputs / a producer call made singly, array-mapped or map-mapped): accept/reject of the real compiler vs the model's checkCall, error location, and for accepted reference-free literals real EncodeJSON+IsValidJson vs the model's eval/valid; (b) every single-point ill-typed mutation (by construction, double-checked by the model) of every single-line binding of accepted programs (GenProgram, repo *.mro, corpus) must be rejected with an error located at the binding or its call; targeted streams (every quick run, counts in the histogram as stream_*): depth = references between all 64 ordered pairs of nestings (T, T[], T[][], map<T>, map<T[]>, map<T[][]>, map<T>[], map<T[]>[]) of the same base type, bound plainly / via a call output / as array element / as map value / via split over arrays and typed maps / via struct members; splits = map calls with 2..4 split arguments in every order over {reference of unknown length, reference into a mapped call, literal of matching / other length, other key set, other kind}; default = the legacy shorthand `x = STAGE` / `x = STAGE.default` for all ordered pairs of 15 parameter / unnamed-default-output types (stage called singly and array-mapped); order = the three calls in all 6 textual orders with the `disabled` modifier (modelled as a bool pseudo-parameter) bound to an output of a producer called singly / array-mapped / map-mapped, as the only dependency or next to an ordinary / split binding; the random stream also permutes the calls, adds disabled modifiers and uses the shorthand; untyped = references at depth 1..3 inside literals for untyped map parameters (map, map[], map[][], struct member, array of structs, map of structs); every call accepted by both is also invoked (top-level call with conforming inputs + MakePipelineCallGraph must succeed), and a call the model rejects but the compiler accepts is invoked too, and a conforming value of the referenced type is pushed through the real FilterJson/IsValidJson of the parameter type (failure = concrete property violation); non-trivial (a) = case has a reference, a composite literal or a split"
 	c07Corpus(c)
 	c07Witnesses(c)
-	n := 2500
+	n := 2000
 	if c.Thorough {
 		n = 40000
 	}
@@ -106,7 +106,7 @@ func c07NewEnv(c *Ctx) *c07Env {
 		for i := 0; i < no; i++ {
 			env.prodOuts = append(env.prodOuts, c17Field{fmt.Sprintf("o%d", i), c07RandType(rng)})
 		}
-		if rng.Intn(5) == 0 {
+		if rng.Intn(3) == 0 {
 			env.prodOuts = append(env.prodOuts, c17Field{"default", c07RandType(rng)})
 		}
 	}
@@ -191,6 +191,7 @@ type c07Gen struct {
 	env         *c07Env
 	miss        int  // 1/miss of the nodes are near-misses (0: none)
 	nestedRef   bool // a reference was put inside an untyped map literal
+	shorthand   bool // `x = STAGE` with a stage that has an unnamed default output
 	sameBaseRef bool // a reference of the same base type but different nesting was chosen
 }
 
@@ -201,6 +202,13 @@ func (g *c07Gen) near() bool { return g.miss > 0 && g.rng.Intn(g.miss) == 0 }
 func (g *c07Gen) ref(t *c17Ty) *c07Exp {
 	if len(g.env.cands) == 0 {
 		return nil
+	}
+	// the legacy shorthand `x = STAGE` for `x = STAGE.default`
+	for _, o := range g.env.prodOuts {
+		if o.id == "default" && g.rng.Intn(4) == 0 {
+			g.shorthand = true
+			return c07Ref('c', "PROD")
+		}
 	}
 	var good []c07Cand
 	for _, cd := range g.env.cands {
@@ -403,9 +411,10 @@ func (g *c07Gen) exp(t *c17Ty, depth int) *c07Exp {
 
 type c07Case struct {
 	env    *c07Env
-	params []c17Field
+	params []c17Field // a parameter named "disabled" stands for the `disabled` modifier (type bool)
 	binds  []c07NamedBind
 	mapped bool
+	order  []int // textual order of the calls PROD (0), SINK (1), S (2); nil = that order
 }
 
 type c07NamedBind struct {
@@ -456,6 +465,9 @@ func (cs *c07Case) program() (string, int, []int) {
 	}
 	sb.WriteString("stage S(\n")
 	for _, p := range cs.params {
+		if p.id == "disabled" { // the `disabled` modifier: a bool pseudo-parameter of every call
+			continue
+		}
 		fmt.Fprintf(&sb, "    in  %s %s,\n", p.t.mro(), p.id)
 	}
 	sb.WriteString("    out int r,\n    src comp \"fake\",\n)\n\n")
@@ -464,34 +476,82 @@ func (cs *c07Case) program() (string, int, []int) {
 		fmt.Fprintf(&sb, "    in  %s %s,\n", s.t.mro(), s.id)
 	}
 	sb.WriteString("    out int r,\n)\n{\n")
+	// the three calls, in the order asked for (the compiler sorts them topologically)
+	prodBlock := ""
 	switch env.prodMode {
 	case 's':
-		sb.WriteString("    call PROD(\n        seed = 1,\n    )\n")
+		prodBlock = "    call PROD(\n        seed = 1,\n    )\n"
 	case 'a':
-		sb.WriteString("    map call PROD(\n        seed = split [1, 2],\n    )\n")
+		prodBlock = "    map call PROD(\n        seed = split [1, 2],\n    )\n"
 	case 'm':
-		sb.WriteString("    map call PROD(\n        seed = split {\"ka\": 1, \"kb\": 2},\n    )\n")
+		prodBlock = "    map call PROD(\n        seed = split {\"ka\": 1, \"kb\": 2},\n    )\n"
 	}
+	sinkBlock := ""
 	if len(env.selfs) > 0 {
-		sb.WriteString("    call SINK(\n")
+		var b strings.Builder
+		b.WriteString("    call SINK(\n")
 		for _, s := range env.selfs {
-			fmt.Fprintf(&sb, "        %s = self.%s,\n", s.id, s.id)
+			fmt.Fprintf(&b, "        %s = self.%s,\n", s.id, s.id)
 		}
-		sb.WriteString("    )\n")
+		b.WriteString("    )\n")
+		sinkBlock = b.String()
 	}
 	line := func() int { return strings.Count(sb.String(), "\n") + 1 }
-	callLine := line()
-	if cs.mapped {
-		sb.WriteString("    map call S(\n")
-	} else {
-		sb.WriteString("    call S(\n")
+	callLine := 0
+	lines := make([]int, len(cs.binds))
+	emitS := func() {
+		callLine = line()
+		mapped := false
+		for _, b := range cs.binds {
+			if b.b.split && b.id != "disabled" {
+				mapped = true
+			}
+		}
+		if mapped || cs.mapped {
+			sb.WriteString("    map call S(\n")
+		} else {
+			sb.WriteString("    call S(\n")
+		}
+		for i, b := range cs.binds {
+			if b.id == "disabled" {
+				continue
+			}
+			lines[i] = line()
+			fmt.Fprintf(&sb, "        %s = %s,\n", b.id, b.b.mro())
+		}
+		sb.WriteString("    )")
+		first := true
+		for i, b := range cs.binds {
+			if b.id != "disabled" {
+				continue
+			}
+			if first {
+				sb.WriteString(" using (\n")
+				first = false
+			}
+			lines[i] = line()
+			fmt.Fprintf(&sb, "        disabled = %s,\n", b.b.mro())
+		}
+		if !first {
+			sb.WriteString("    )")
+		}
+		sb.WriteString("\n")
 	}
-	var lines []int
-	for _, b := range cs.binds {
-		lines = append(lines, line())
-		fmt.Fprintf(&sb, "        %s = %s,\n", b.id, b.b.mro())
+	order := cs.order
+	if len(order) != 3 {
+		order = []int{0, 1, 2}
 	}
-	sb.WriteString("    )\n    return (\n        r = null,\n    )\n}\n")
+	for _, k := range order {
+		switch k {
+		case 0:
+			sb.WriteString(prodBlock)
+		case 1:
+			sb.WriteString(sinkBlock)
+		case 2:
+			emitS()
+		}
+	}
+	sb.WriteString("    return (\n        r = null,\n    )\n}\n")
 	return sb.String(), callLine, lines
 }
 
@@ -566,6 +626,17 @@ func c07GenCase(c *Ctx, env *c07Env) *c07Case {
 			cs.binds = append(cs.binds, cs.binds[0]) // bound twice
 		}
 	}
+	if rng.Intn(2) == 0 {
+		cs.order = rng.Perm(3)
+		c.Res.hist("gen_calls_out_of_order")
+	}
+	if rng.Intn(5) == 0 {
+		if e := g.ref(c07B("bool")); e != nil {
+			cs.params = append(cs.params, c17Field{"disabled", c07B("bool")})
+			cs.binds = append(cs.binds, c07NamedBind{"disabled", c07Bind{e: e}})
+			c.Res.hist("gen_disabled_modifier")
+		}
+	}
 	cs.mapped = false
 	nsplit := 0
 	for _, b := range cs.binds {
@@ -576,6 +647,9 @@ func c07GenCase(c *Ctx, env *c07Env) *c07Case {
 	}
 	if g.nestedRef {
 		c.Res.hist("gen_ref_nested_in_untyped_map")
+	}
+	if g.shorthand {
+		c.Res.hist("gen_whole_stage_shorthand")
 	}
 	if g.sameBaseRef {
 		c.Res.hist("gen_ref_same_base_other_nesting")
@@ -673,7 +747,7 @@ func c07ShrinkCase(c *Ctx, cs *c07Case) *c07Case {
 			if len(cur.binds) <= 1 {
 				break
 			}
-			cand := &c07Case{env: cur.env, mapped: false}
+			cand := &c07Case{env: cur.env, mapped: false, order: cur.order}
 			for j, b := range cur.binds {
 				if j != i {
 					cand.binds = append(cand.binds, b)
@@ -737,12 +811,17 @@ func c07JudgeCase(c *Ctx, cs *c07Case, class string) (*c07Verdict, bool) {
 			Input: small.describe(sv), Model: sv.accept, Impl: sv.implErr == nil, Broken: "correspondence validCall ~ BindStms.compile/IsValidExpression"})
 		if sv.implErr == nil && !sv.accept {
 			// the model calls it ill-typed and the compiler accepts it: does invoking it fail?
+			failed := false
 			if top, ok := small.topCall(""); ok {
 				if err := c07CallGraph(sv.src + top); err != nil {
+					failed = true
 					r.violate(Violation{Kind: "property", Key: "C07:ill-typed-accepted:callgraph-fails" + suffix,
 						What:  "the compiler accepts a call the typing model rejects, and invoking the pipeline then fails: " + firstLine(err.Error()),
 						Input: map[string]interface{}{"program": sv.src + top, "error": err.Error(), "model_binding_ok": sv.bindOk}})
 				}
+			}
+			if !failed {
+				c07DeliveredValue(c, small, sv, suffix)
 			}
 		}
 		return v, false
@@ -789,6 +868,61 @@ func c07JudgeCase(c *Ctx, cs *c07Case, class string) (*c07Verdict, bool) {
 		}
 	}
 	return v, true
+}
+
+// c07DeliveredValue: for a plain reference binding the model rejects but the
+// compiler accepts, a conforming (non-null) value of the reference's declared
+// type is pushed through the real FilterJson / IsValidJson of the parameter type.
+func c07DeliveredValue(c *Ctx, cs *c07Case, v *c07Verdict, suffix string) {
+	r := c.Res
+	ee := cs.env.enc()
+	for j, b := range cs.binds {
+		if v.bindOk[j] || b.b.split || (b.b.e.kind != 'r' && b.b.e.kind != 'c') {
+			continue
+		}
+		var rb *syntax.BindStm
+		for _, p := range v.ast.Pipelines {
+			for _, call := range p.Calls {
+				if call.Id == "S" {
+					if b.id == "disabled" {
+						if call.Modifiers != nil && call.Modifiers.Bindings != nil {
+							rb = call.Modifiers.Bindings.Table[b.id]
+						}
+					} else {
+						rb = call.Bindings.Table[b.id]
+					}
+				}
+			}
+		}
+		if rb == nil {
+			continue
+		}
+		e := b.b.e
+		if ref, ok := rb.Exp.(*syntax.RefExp); ok && e.kind == 'c' && len(e.path) == 0 && ref.OutputId == "default" {
+			e = c07Ref('c', e.id, "default") // the compiler rewrote the shorthand
+		}
+		rep := strings.SplitN(c.Drv.Ask("C07.exp", ee, "int", e.enc()), " ", 3)
+		if len(rep) != 3 || rep[2] == "-" {
+			continue
+		}
+		st, _ := c07ParseTyEnc(strings.Split(rep[2], " "))
+		dst := v.ast.TypeTable.Get(rb.Tname)
+		if st == nil || dst == nil {
+			continue
+		}
+		val := c07Witness(st).json()
+		fm, _, _ := dst.FilterJson([]byte(val), &v.ast.TypeTable)
+		var alarms strings.Builder
+		verr := dst.IsValidJson(fm, &alarms, &v.ast.TypeTable)
+		if verr != nil || alarms.Len() > 0 {
+			r.violate(Violation{Kind: "property", Key: "C07:ill-typed-accepted:delivered-value-invalid" + suffix,
+				What: "the compiler accepts a binding the typing model rejects; a conforming value of the referenced " + st.mro() +
+					" does not validate against the parameter type " + rb.Tname.String() + ": " + firstLine(fmt.Sprint(verr)),
+				Input: map[string]interface{}{"program": v.src, "binding": b.id + " = " + b.b.mro(), "producer_value": val,
+					"delivered": string(fm), "error": fmt.Sprint(verr, alarms.String())}})
+			return
+		}
+	}
 }
 
 // topCall: a top-level invocation of P with type-conforming, non-null inputs.
